@@ -283,6 +283,84 @@ theorem sortP_rep (p : PList) (xs fs : List Nat) (s : LState) (h : Rep p xs fs s
     · simp [LState.sort, sortVals, hlen, e]
     · rw [hm']; exact rep_sameLinks p p' xs fs s h q3
 
+theorem insertMany_rep (vs : List Int) : ∀ (p : PList) (xs fs : List Nat) (s : LState) (k : Nat),
+    Rep p xs fs s → k ≤ xs.length →
+    ∃ p' xs' fs', insertMany p ((xs.drop k).headD 0) vs = some p' ∧ Rep p' xs' fs' (s.insertMany k vs).1 := by
+  induction vs with
+  | nil => intro p xs fs s k h _; exact ⟨p, xs, fs, rfl, h⟩
+  | cons v vs ih =>
+    intro p xs fs s k h hk
+    obtain ⟨p1, item, fs1, e1, e2, _⟩ := insert_rep p xs fs s h k hk v
+    have hd : ((xs.take k ++ item :: xs.drop k).drop (k + 1)) = xs.drop k := by
+      have hl : (xs.take k).length = k := by simp; omega
+      rw [List.drop_append, hl]
+      simp [List.drop_eq_nil_of_le (show (xs.take k).length ≤ k + 1 by omega)]
+    obtain ⟨p', xs', fs', f1, f2⟩ := ih p1 (xs.take k ++ item :: xs.drop k) fs1 (s.insertRaw k v).1 (k + 1) e2
+      (by simp; omega)
+    rw [hd] at f1
+    refine ⟨p', xs', fs', by simp only [insertMany, e1]; exact f1, ?_⟩
+    have : (s.insertMany k (v :: vs)).1 = ((s.insertRaw k v).1.insertMany (k + 1) vs).1 := by
+      simp [LState.insertMany]
+    rw [this]; exact f2
+
+theorem findLoop_links (p : PList) (v : Int) : ∀ (b : List Nat) (fuel : Nat), NextLinks p b → b.length ≤ fuel →
+    findLoop p v fuel (b.headD 0) = some ((b.drop ((b.map p.val).findIdx (· == v))).headD 0) := by
+  intro b
+  induction b with
+  | nil => intro fuel _ _; cases fuel <;> rfl
+  | cons y b ih =>
+    intro fuel hl hf
+    obtain ⟨y_nz, y_next, hl'⟩ := hl
+    cases fuel with
+    | zero => simp at hf
+    | succ fuel =>
+      cases y with
+      | zero => exact absurd rfl y_nz
+      | succ i =>
+        simp only [List.headD_cons, findLoop, List.map_cons, List.findIdx_cons]
+        by_cases c : p.val (i + 1) = v
+        · simp [c]
+        · have c' : (p.val (i + 1) == v) = false := by simpa using c
+          simp only [c, if_false, y_next, c', cond_false, List.drop_succ_cons]
+          exact ih fuel hl' (by simpa using hf)
+
+theorem removeValue_rep (p : PList) (xs fs : List Nat) (s : LState) (h : Rep p xs fs s) (v : Int) :
+    ∃ p' r xs' fs', removeValue p v = some p' ∧ s.removeValue v = some r ∧ Rep p' xs' fs' r.st := by
+  have hv : s.vals = xs.map p.val := vals_of_view p xs s.vals (view_of_rep p xs fs s h)
+  have hsize : s.size = xs.length := by simp [LState.size, h.nodes]
+  have hfind := findLoop_links p v xs p.size (nextlinks_of_seg p xs none h.seg) (by rw [h.sz]; exact Nat.le_refl _)
+  rw [← h.beg, ← hv] at hfind
+  have hpos : s.findPos v = s.vals.findIdx (· == v) := rfl
+  have hle : s.findPos v ≤ xs.length := by
+    have := @List.findIdx_le_length _ (· == v) (xs.map p.val)
+    rw [hpos, hv]; simpa using this
+  unfold removeValue LState.removeValue find
+  rw [hfind, ← hpos]
+  by_cases c : s.findPos v = s.size
+  · have : xs.drop (s.findPos v) = [] := by rw [c, hsize]; simp
+    rw [this]
+    exact ⟨p, { st := s }, xs, fs, rfl, by simp [c], h⟩
+  · have hlt : s.findPos v < xs.length := by omega
+    have hx : xs = xs.take (s.findPos v) ++ xs[s.findPos v] :: xs.drop (s.findPos v + 1) := by
+      rw [List.getElem_cons_drop, List.take_append_drop]
+    have h' : Rep p (xs.take (s.findPos v) ++ xs[s.findPos v] :: xs.drop (s.findPos v + 1)) fs s := by rw [← hx]; exact h
+    obtain ⟨p', e1, e2⟩ := unlink_rep p _ _ fs _ s h'
+    have hlen : (xs.take (s.findPos v)).length = s.findPos v := by simp; omega
+    rw [hlen] at e2
+    have hnz : xs[s.findPos v] ≠ 0 := seg_ne_zero p xs 0 none h.seg _ (List.getElem_mem hlt)
+    have hn : s.nodes[s.findPos v]? = some (xs[s.findPos v] - 1, p.val xs[s.findPos v]) := by
+      rw [h.nodes]; simp [hlt]
+    rw [List.drop_eq_getElem_cons hlt]
+    simp only [List.headD_cons]
+    obtain ⟨a, ha⟩ : ∃ a, xs[s.findPos v] = a + 1 := ⟨xs[s.findPos v] - 1, by omega⟩
+    rw [ha] at e1 ⊢
+    simp only [e1, Option.map_some]
+    refine ⟨p', { st := { s with nodes := s.nodes.take (s.findPos v) ++ s.nodes.drop (s.findPos v + 1),
+                                 free := (a + 1 - 1) :: s.free } },
+      xs.take (s.findPos v) ++ xs.drop (s.findPos v + 1), (a + 1) :: fs, rfl, ?_, ?_⟩
+    · simp only [ne_eq, c, not_false_eq_true, if_true, LState.remove, hn, ha]
+    · rw [← ha]; exact e2
+
 /-- one operation of a history: the heap and the chain model accept the same operations and stay related -/
 theorem step_rep (p : PList) (xs fs : List Nat) (s : LState) (h : Rep p xs fs s) (op : POp) :
     (step p op = none ∧ stepChain s op = none) ∨
@@ -329,6 +407,21 @@ theorem step_rep (p : PList) (xs fs : List Nat) (s : LState) (h : Rep p xs fs s)
     right
     obtain ⟨p', r, e1, e2, e3⟩ := sortP_rep p xs fs s h
     exact ⟨p', r.st, xs, fs, e1, by simp [stepChain, e2], e3⟩
+  | insertList k vs =>
+    by_cases hk : k ≤ xs.length
+    · right
+      obtain ⟨p', xs', fs', e1, e2⟩ := insertMany_rep vs p xs fs s k h hk
+      have hw := walk_seg p k xs none h.seg hk
+      rw [← h.beg] at hw
+      refine ⟨p', (s.insertMany k vs).1, xs', fs', ?_, ?_, e2⟩
+      · simp only [step, h.sz, hk, if_true, hw, e1]
+      · simp [stepChain, LState.insertList, hsize, hk]
+    · left
+      exact ⟨by simp [step, h.sz, hk], by simp [stepChain, LState.insertList, hsize, hk]⟩
+  | removeValue v =>
+    right
+    obtain ⟨p', r, xs', fs', e1, e2, e3⟩ := removeValue_rep p xs fs s h v
+    exact ⟨p', r.st, xs', fs', e1, by simp [stepChain, e2], e3⟩
 
 theorem run_rep (ops : List POp) : ∀ (p : PList) (xs fs : List Nat) (s : LState), Rep p xs fs s →
     ∃ xs' fs', Rep (run p ops) xs' fs' (runChain s ops) := by
